@@ -859,7 +859,7 @@ theorem settingsCols_pickle (ident : Nat → Nat) (cols : List (Path × List (Na
 theorem pickleCodec_lawful (c : Cfg) (hg : c.good = true) (ident : Nat → Nat) : (pickleCodec c ident).Lawful := by
   intro e
   have hres : c.decoderResolvesRefs = true := by
-    simp only [Cfg.good, Bool.and_eq_true] at hg; exact hg.1.1.1
+    simp only [Cfg.good, Bool.and_eq_true] at hg; exact hg.1.1.1.1
   obtain ⟨id, timeout, step, stored⟩ := e
   cases stored with
   | plain s =>
@@ -905,7 +905,10 @@ def C19_full_cfg (c : Cfg) : Prop :=
   -- wave 8: whatever was compressed earlier in the process, every saved log is loaded and is the decompression of ITS
   -- compression (which `settings_roundtrip` shows equal to the log)
   (∀ saves : List (Log × List Nat), (∀ s ∈ saves, ∀ i ∈ s.2, i < s.1.length) →
-    saveSeq c.compressIsPure [] saves = saves.map fun s => some (decompressSettings (compressSettings s.1)))
+    saveSeq c.compressIsPure [] saves = saves.map fun s => some (decompressSettings (compressSettings s.1))) ∧
+  -- wave 9: after a whole-server load the session of an instance whose state is stored IS the stored state — whatever the instance
+  -- held in memory (session ended, begun anew, untouched) after any request history
+  (∀ (reqs : List Req) (f : Session), (runReqs c reqs).file = some f → (loadStateI c (runReqs c reqs)).session = some f)
 
 theorem saveSeq_pure : ∀ (saves : List (Log × List Nat)) (acc : List Nat), (∀ s ∈ saves, ∀ i ∈ s.2, i < s.1.length) →
     saveSeq true acc saves = saves.map fun s => some (decompressSettings (compressSettings s.1))
@@ -960,20 +963,23 @@ theorem file_is_live (c : Cfg) (hs : c.saveAfterEveryStepRequest = true) (reqs :
 
 theorem C19_full_of_good (c : Cfg) (h : c.good = true) : C19_full_cfg c :=
   ⟨C19_full_holds, fun ident compress => C19_full_holds _ _ (pickleCodec_lawful c h ident) compress,
-   fun reqs ops s hs => ⟨file_is_live c (by simp only [Cfg.good, Bool.and_eq_true] at h; exact h.1.1.2) reqs ops s hs,
+   fun reqs ops s hs => ⟨file_is_live c (by simp only [Cfg.good, Bool.and_eq_true] at h; exact h.1.1.1.2) reqs ops s hs,
      runReqs_live_is_run c _ s hs⟩,
    fun s => by
-     have hk : c.restoreKeepsClock = true := by simp only [Cfg.good, Bool.and_eq_true] at h; exact h.1.2
+     have hk : c.restoreKeepsClock = true := by simp only [Cfg.good, Bool.and_eq_true] at h; exact h.1.1.2
      simp [setState, hk],
    fun saves hs => by
-     have hq : c.compressIsPure = true := by simp only [Cfg.good, Bool.and_eq_true] at h; exact h.2
-     rw [hq]; exact saveSeq_pure saves [] hs⟩
+     have hq : c.compressIsPure = true := by simp only [Cfg.good, Bool.and_eq_true] at h; exact h.1.2
+     rw [hq]; exact saveSeq_pure saves [] hs,
+   fun reqs f hf => by
+     have hw : c.loadInstallsStored = true := by simp only [Cfg.good, Bool.and_eq_true] at h; exact h.2
+     simp [loadStateI, hf, hw]⟩
 
 /-- A process-level accumulator in `compress_settings`: session A (two steps, a dictionary without a value at step 1) is saved,
 then session B (one step): B's compressed state carries A's entry `[1, …]`, B has no step 1, B's load fails. -/
 theorem C19_witness_compress_accumulates (c : Cfg) (h : c.compressIsPure = false) : ¬ C19_full_cfg c := by
   intro hf
-  have h5 := hf.2.2.2.2 [([(2048, []), (2560, [])], [1]), ([(2048, [(7, "5.0")])], [])] (by decide)
+  have h5 := hf.2.2.2.2.1 [([(2048, []), (2560, [])], [1]), ([(2048, [(7, "5.0")])], [])] (by decide)
   rw [h] at h5
   exact absurd h5 (by decide)
 
@@ -1004,20 +1010,36 @@ managers / equations) taken by `run-steps` to the clock position written last is
 first session. -/
 theorem C19_witness_skip_save (c : Cfg) (h : c.saveAfterEveryStepRequest = false) : ¬ C19_full_cfg c := by
   intro hf
-  obtain ⟨r, sv, k, q⟩ := c
+  obtain ⟨r, sv, k, q, w⟩ := c
   simp only at h
   subst h
   have h3 := hf.2.2.1 [.beginSession sessA, .steps twoSteps, .beginSession sessB] twoSteps (run sessB twoSteps)
-  cases r <;> cases k <;> cases q <;> exact absurd (h3 (by decide)).1 (by decide)
+  cases r <;> cases k <;> cases q <;> cases w <;> exact absurd (h3 (by decide)).1 (by decide)
 
 /-- what the file holds in that history, and that single steps never show it (the clock moves with every step) -/
-example : (runReqs ⟨true, false, true, true⟩ [.beginSession sessA, .steps twoSteps, .beginSession sessB, .steps twoSteps]).file
+example : (runReqs ⟨true, false, true, true, true⟩ [.beginSession sessA, .steps twoSteps, .beginSession sessB, .steps twoSteps]).file
     = some (run sessA twoSteps) := by decide
-example : (runReqs ⟨true, false, true, true⟩ [.beginSession sessA, .steps twoSteps, .endSession, .beginSession sessB, .steps twoSteps]).file
+example : (runReqs ⟨true, false, true, true, true⟩ [.beginSession sessA, .steps twoSteps, .endSession, .beginSession sessB, .steps twoSteps]).file
     = some (run sessA twoSteps) := by decide
-example : (runReqs ⟨true, false, true, true⟩ [.beginSession sessA, .steps (twoSteps.take 1), .steps (twoSteps.drop 1), .beginSession sessB,
+example : (runReqs ⟨true, false, true, true, true⟩ [.beginSession sessA, .steps (twoSteps.take 1), .steps (twoSteps.drop 1), .beginSession sessB,
       .steps (twoSteps.take 1), .steps (twoSteps.drop 1)]).file
     = some (run sessB twoSteps) := by decide
+
+/-- A load that skips stored states whose instance is alive: the session was saved, then ended (no write) — `POST /load-state`
+answers 200 and the instance still has no session. -/
+theorem C19_witness_load_skips_live (c : Cfg) (h : c.loadInstallsStored = false) : ¬ C19_full_cfg c := by
+  intro hf
+  have h6 := hf.2.2.2.2.2 [.beginSession sessA, .steps twoSteps, .endSession] (run sessA twoSteps)
+  obtain ⟨r, sv, k, q, w⟩ := c
+  simp only at h
+  subst h
+  cases r <;> cases sv <;> cases k <;> cases q <;> exact absurd (h6 (by decide)) (by decide)
+
+/-- the same with a session begun anew after the save: the load leaves the new, un-stepped session in place -/
+example : (loadStateI ⟨true, true, true, true, false⟩ (runReqs ⟨true, true, true, true, false⟩
+    [.beginSession sessA, .steps twoSteps, .beginSession sessB])).session = some (begin sessB) := by decide
+example : (loadStateI ⟨true, true, true, true, true⟩ (runReqs ⟨true, true, true, true, true⟩
+    [.beginSession sessA, .steps twoSteps, .beginSession sessB])).session = some (run sessA twoSteps) := by decide
 
 def shareSpec : RunSpec := { paths := [0], start := 2048, dt := 512, stop := 10240 }
 /-- `run-steps` with `numberSteps = 2`: one settings object logged for two steps -/
@@ -1030,19 +1052,19 @@ settings object was logged for two steps: the second entry comes back as `{"py/i
 theorem C19_witness_plain_reader (c : Cfg) (h : c.decoderResolvesRefs = false) : ¬ C19_full_cfg c := by
   intro hf
   obtain ⟨st', hl, _⟩ := (hf.2.1 (fun _ => 0) false).1 shareSpec shareOps 0 0 (fun _ => none)
-  obtain ⟨r, sv, k, q⟩ := c
+  obtain ⟨r, sv, k, q, w⟩ := c
   simp only at h
   subst h
-  have : loadInstance (pickleCodec ⟨false, sv, k, q⟩ (fun _ => 0))
-      (saveInstance (pickleCodec ⟨false, sv, k, q⟩ (fun _ => 0)) false (fun _ => none) (instanceState 0 0 (run shareSpec shareOps))) 0
-      = none := by cases sv <;> cases k <;> cases q <;> decide +kernel
+  have : loadInstance (pickleCodec ⟨false, sv, k, q, w⟩ (fun _ => 0))
+      (saveInstance (pickleCodec ⟨false, sv, k, q, w⟩ (fun _ => 0)) false (fun _ => none) (instanceState 0 0 (run shareSpec shareOps))) 0
+      = none := by cases sv <;> cases k <;> cases q <;> cases w <;> decide +kernel
   rw [this] at hl
   cases hl
 
 /-- the same in compressed mode with a list-valued setting: the value of the second column entry is a back-reference -/
 theorem C19_witness_plain_reader_compressed :
-    loadInstance (pickleCodec ⟨false, true, true, true⟩ (fun _ => 0))
-      (saveInstance (pickleCodec ⟨false, true, true, true⟩ (fun _ => 0)) true (fun _ => none) (instanceState 0 0 (run shareSpec sharePointsOps))) 0
+    loadInstance (pickleCodec ⟨false, true, true, true, true⟩ (fun _ => 0))
+      (saveInstance (pickleCodec ⟨false, true, true, true, true⟩ (fun _ => 0)) true (fun _ => none) (instanceState 0 0 (run shareSpec sharePointsOps))) 0
       = none := by decide +kernel
 
 theorem decode_noRef (r : Bool) (j : J) (hn : noRef j = true) : decode r j = decode true j := by
@@ -1054,7 +1076,7 @@ theorem decode_noRef (r : Bool) (j : J) (hn : noRef j = true) : decode r j = dec
 back-reference (no settings object logged twice, e.g. only `run-step` requests over HTTP) is read back. -/
 theorem C19_partial_cfg (c : Cfg) (ident : Nat → Nat) (e : Envelope) (hn : noRef (settingsJ ident e.stored) = true) :
     (pickleCodec c ident).dec ((pickleCodec c ident).enc e) = some e := by
-  have hgood := pickleCodec_lawful ⟨true, true, true, true⟩ rfl ident e
+  have hgood := pickleCodec_lawful ⟨true, true, true, true, true⟩ rfl ident e
   simp only [pickleCodec] at hgood ⊢
   rw [decode_noRef _ _ hn]
   exact hgood
@@ -1062,8 +1084,8 @@ theorem C19_partial_cfg (c : Cfg) (ident : Nat → Nat) (e : Envelope) (hn : noR
 /-- non-vacuity: the back-reference really is in the written text, and the unpickler restores both modes -/
 example : noRef (settingsJ (fun _ => 0) (store false (run shareSpec shareOps))) = false := by decide +kernel
 example : noRef (settingsJ (fun _ => 0) (store true (run shareSpec sharePointsOps))) = false := by decide +kernel
-example : loadInstance (pickleCodec ⟨true, true, true, true⟩ (fun _ => 0))
-      (saveInstance (pickleCodec ⟨true, true, true, true⟩ (fun _ => 0)) true (fun _ => none) (instanceState 0 0 (run shareSpec sharePointsOps))) 0
+example : loadInstance (pickleCodec ⟨true, true, true, true, true⟩ (fun _ => 0))
+      (saveInstance (pickleCodec ⟨true, true, true, true, true⟩ (fun _ => 0)) true (fun _ => none) (instanceState 0 0 (run shareSpec sharePointsOps))) 0
       = some (instanceState 0 0 (unstore (store true (run shareSpec sharePointsOps)))) := by decide +kernel
 
 /-! ### non-vacuity and the shapes named in the statement -/
@@ -1110,6 +1132,7 @@ example : (compressSettings (run demoSpec demoOps).settingsLog) =
 #print axioms C19_witness_skip_save
 #print axioms C19_witness_rounding_restore
 #print axioms C19_witness_compress_accumulates
+#print axioms C19_witness_load_skips_live
 #print axioms saveSeq_pure
 
 end Bptk.C19
